@@ -11,7 +11,7 @@ package circularbuffer
 //@     && q.size == RingSize(q.start, q.end, q.full, q.maxSize) && (q.full ==> q.end == q.start)
 //@
 //@ -- abstract view: the queue content oldest first
-//@ pred Seq(q) := mklseq(q.size, \i. q.values[(q.start + i) % q.maxSize])
+//@ pred Seq(q) := mklseq(q.size, \i. q.values[plus(q.start, i) % q.maxSize])
 //@
 //@ pred Unchanged(q) := q.start == old(q.start) && q.end == old(q.end) && q.full == old(q.full) && q.size == old(q.size)
 //@     && q.maxSize == old(q.maxSize) && q.values == old(q.values) && Seq(q) == old(Seq(q))
@@ -151,3 +151,43 @@ package circularbuffer
 //@     invariant ItInv(iterator) && iterator.index <= old(iterator.index)
 //@     invariant forall j :: iterator.index <= j && j < old(iterator.index) && 0 <= j ==> !f(j, Seq(iterator.queue)[j])
 //@     decreases iterator.index + 1
+
+// ---- JSON (C11 round trip, C12 replace / sound / atomic) ----
+
+//@ func Queue.ToJSON
+//@   requires Inv(queue)
+//@   modifies nothing
+//@   ensures [C11 C17 C18] result1 == nil && fresh(arr(result0)) && jarr_kind(result0, elemof(queue.values)) == 3 && jarr_len(result0, elemof(queue.values)) == len(Seq(queue))
+//@     && (forall i :: 0 <= i && i < len(Seq(queue)) ==> jarr_at(result0, i, elemof(queue.values)) == Seq(queue)[i])
+
+//@ func Queue.MarshalJSON
+//@   requires Inv(queue)
+//@   modifies nothing
+//@   ensures [C11 C17 C18] result1 == nil && fresh(arr(result0)) && jarr_kind(result0, elemof(queue.values)) == 3 && jarr_len(result0, elemof(queue.values)) == len(Seq(queue))
+//@     && (forall i :: 0 <= i && i < len(Seq(queue)) ==> jarr_at(result0, i, elemof(queue.values)) == Seq(queue)[i])
+
+//@ -- the buffer keeps the last capacity-many values of the document (C12)
+//@ func Queue.FromJSON
+//@   requires Inv(queue)
+//@   modifies queue.values, queue.start, queue.end, queue.full, queue.size, elems(queue.values)
+//@   ensures [C12 C17] Inv(queue) && queue.maxSize == old(queue.maxSize) && (result == nil <==> jarr_kind(data, elemof(queue.values)) >= 2)
+//@   ensures [C12] atomic: result != nil ==> Unchanged(queue)
+//@   ensures [C11 C12] loaded: jarr_kind(data, elemof(queue.values)) == 3 ==> len(Seq(queue)) == min(jarr_len(data, elemof(queue.values)), queue.maxSize)
+//@     && (forall i :: 0 <= i && i < len(Seq(queue)) ==> Seq(queue)[i] == jarr_at(data, jarr_len(data, elemof(queue.values)) - len(Seq(queue)) + i, elemof(queue.values)))
+//@   ensures [C12] null: jarr_kind(data, elemof(queue.values)) == 2 ==> len(Seq(queue)) == 0
+//@   loop 1:
+//@     invariant Inv(queue) && queue.maxSize == old(queue.maxSize) && 0 - 1 <= rangeindex && rangeindex < len(values) && err == nil
+//@     invariant len(Seq(queue)) == min(rangeindex + 1, queue.maxSize)
+//@     invariant forall i :: 0 <= i && i < len(Seq(queue)) ==> Seq(queue)[i] == values[rangeindex + 1 - len(Seq(queue)) + i]
+//@     invariant (jarr_kind(data, elemof(queue.values)) == 3 ==> len(values) == jarr_len(data, elemof(queue.values)) && (forall i :: 0 <= i && i < len(values) ==> values[i] == jarr_at(data, i, elemof(queue.values)))) && (jarr_kind(data, elemof(queue.values)) == 2 ==> len(values) == 0) && jarr_kind(data, elemof(queue.values)) >= 2
+//@     decreases len(values) - rangeindex
+
+//@ -- the buffer keeps the last capacity-many values of the document (C12)
+//@ func Queue.UnmarshalJSON
+//@   requires Inv(queue)
+//@   modifies queue.values, queue.start, queue.end, queue.full, queue.size, elems(queue.values)
+//@   ensures [C12 C17] Inv(queue) && queue.maxSize == old(queue.maxSize) && (result == nil <==> jarr_kind(bytes, elemof(queue.values)) >= 2)
+//@   ensures [C12] atomic: result != nil ==> Unchanged(queue)
+//@   ensures [C11 C12] loaded: jarr_kind(bytes, elemof(queue.values)) == 3 ==> len(Seq(queue)) == min(jarr_len(bytes, elemof(queue.values)), queue.maxSize)
+//@     && (forall i :: 0 <= i && i < len(Seq(queue)) ==> Seq(queue)[i] == jarr_at(bytes, jarr_len(bytes, elemof(queue.values)) - len(Seq(queue)) + i, elemof(queue.values)))
+//@   ensures [C12] null: jarr_kind(bytes, elemof(queue.values)) == 2 ==> len(Seq(queue)) == 0
